@@ -776,7 +776,8 @@ func randTSch(r *rand.Rand) TSch {
 					x.Req = "def"
 				}
 				if r.Intn(5) == 0 {
-					al := fmt.Sprintf("al_%d", id)
+					// aliases are free text: bytes below '.', where the name index wraps its table (- $ + space # ,), included
+					al := fmt.Sprintf([]string{"al_%d", "al-%d", "a$%d", "k+%d", "a %d", "x-%d-y", "n#%d", "%d,z", "-%d", "q%d-"}[r.Intn(10)], id)
 					if !usedFN[al] {
 						x.Alias = al
 						usedFN[al] = true
@@ -797,6 +798,26 @@ func randTSch(r *rand.Rand) TSch {
 				f.Typedefs = append(f.Typedefs, TDef{Name: tn, Ty: randTy(1, "")})
 				local = append(local, sym{f.Path + ":" + tn, "T"})
 			}
+		}
+		// a struct made for the name index: integer fields (so that the native converter can be probed with it) whose
+		// aliases have one length and differ at a single position - the one the trie discriminates on - by bytes on both
+		// sides of '.', where the index wraps (- $ + space # , versus / 0 _ x)
+		probeKey := ""
+		if fi == 0 && r.Intn(3) == 0 && !usedNames["Probe"] {
+			usedNames["Probe"] = true
+			st := TStruct{Name: "Probe", Kind: "struct"}
+			chars := []byte("-$+ #,./0_x")
+			r.Shuffle(len(chars), func(i, j int) { chars[i], chars[j] = chars[j], chars[i] })
+			pos := r.Intn(3) // discriminating position within a 3-byte alias
+			for k := 0; k < 3+r.Intn(5); k++ {
+				al := []byte("abc")
+				al[pos] = chars[k]
+				st.Fields = append(st.Fields, TFld{ID: k + 1, Name: fmt.Sprintf("p%d", k), Alias: string(al), Req: []string{"opt", "def"}[r.Intn(2)],
+					Ty: TyX{T: []int{8, 10}[r.Intn(2)], A: []TyX{}}, Dflt: DV{}.norm()})
+			}
+			f.Structs = append(f.Structs, st)
+			probeKey = f.Path + ":Probe"
+			local = append(local, sym{probeKey, "S"})
 		}
 		// services
 		nsv := 1
@@ -833,6 +854,10 @@ func randTSch(r *rand.Rand) TSch {
 					fn.Throws = []TFld{{ID: 1 + r.Intn(4), Name: "err", Req: "def", Ty: TyX{Ref: s.key, A: []TyX{}}}}
 				}
 				sv.Funcs = append(sv.Funcs, fn)
+			}
+			if probeKey != "" && si == 0 {
+				sv.Funcs = append(sv.Funcs, TFunc{Name: fmt.Sprintf("Probe%d_%d", fi, si), Throws: []TFld{}, Arg: TFld{ID: 1, Name: "req", Req: "def", Ty: TyX{Ref: probeKey, A: []TyX{}}, Dflt: DV{}.norm()},
+					Ret: TyX{Ref: probeKey, A: []TyX{}}})
 			}
 			f.Svcs = append(f.Svcs, sv)
 			local = append(local, sym{f.Path + ":" + sv.Name, "V"})
